@@ -780,4 +780,90 @@ theorem lastByUtf8_eq_lastByCp (rows : List Row) (hwf : wfU2B rows = true) (cp :
   · have : utf8enc r.2 ≠ utf8enc cp := fun h => e (utf8enc_injective r.2 cp hw.2.1 hw.2.2 h1 h2 h)
     rw [beq_eq_false_iff_ne.2 this, beq_eq_false_iff_ne.2 e]
 
+/-! ### the loader as a state machine -/
+
+theorem getElem?_of_size_zero (m : GoMap) (h : m.size = 0) (k : Bytes) : m[k]? = none := by
+  apply HashMap.getElem?_of_isEmpty
+  rw [HashMap.isEmpty_eq_size_eq_zero]; simp [h]
+
+theorem size_foldl_insert_mono (kf vf : Row → Bytes) : ∀ (rows : List Row) (m : GoMap),
+    m.size ≤ (rows.foldl (fun m r => m.insert (kf r) (vf r)) m).size := by
+  intro rows
+  induction rows with
+  | nil => intro m; simp
+  | cons r rs ih =>
+    intro m
+    simp only [List.foldl_cons]
+    exact Nat.le_trans HashMap.size_le_size_insert (ih _)
+
+theorem size_foldl_insert_pos (kf vf : Row → Bytes) (rows : List Row) (m : GoMap) (h : rows ≠ []) :
+    0 < (rows.foldl (fun m r => m.insert (kf r) (vf r)) m).size := by
+  match rows, h with
+  | r :: rs, _ =>
+    simp only [List.foldl_cons]
+    have h1 : 0 < (m.insert (kf r) (vf r)).size := by
+      have := @HashMap.isEmpty_insert _ _ _ _ m _ _ (kf r) (vf r)
+      rw [HashMap.isEmpty_eq_size_eq_zero] at this
+      simp at this; omega
+    exact Nat.lt_of_lt_of_le h1 (size_foldl_insert_mono kf vf rs _)
+
+theorem tableOf_u2bMapFrom (m0 : GoMap) (h : m0.size = 0) (rows : List Row) :
+    tableOf (u2bMapFrom m0 rows) = tableOf (u2bMap rows) := by
+  funext k
+  unfold tableOf u2bMapFrom u2bMap
+  rw [foldl_insert_get (fun r => encodeUcs2 r.2) (fun r => r.1), foldl_insert_get (fun r => encodeUcs2 r.2) (fun r => r.1)]
+  rw [getElem?_of_size_zero m0 h]; simp
+
+theorem tableOf_b2uMapFrom (m0 : GoMap) (h : m0.size = 0) (rows : List Row) :
+    tableOf (b2uMapFrom m0 rows) = tableOf (b2uMap rows) := by
+  funext k
+  unfold tableOf b2uMapFrom b2uMap
+  rw [foldl_insert_get (fun r => r.1) (fun r => encodeUcs2 r.2), foldl_insert_get (fun r => r.1) (fun r => encodeUcs2 r.2)]
+  rw [getElem?_of_size_zero m0 h]; simp
+
+/-- what one loader call can do. -/
+theorem initB2U_cases (fs : FS) (p : String) (st st' : Loader) (e : Bool) (h : initB2U fs p st = .ok (st', e)) :
+    st'.u2b = st.u2b ∧
+    ((0 < st.b2u.size ∧ st' = st ∧ e = false) ∨
+     (st.b2u.size = 0 ∧ fs p = none ∧ st' = st ∧ e = true) ∨
+     (st.b2u.size = 0 ∧ e = false ∧ ∃ c rows, fs p = some c ∧ parseTable c = .ok rows ∧ st'.b2u = b2uMapFrom st.b2u rows)) := by
+  unfold initB2U at h
+  by_cases hs : st.b2u.size > 0
+  · simp only [hs, if_true] at h
+    cases h; exact ⟨rfl, Or.inl ⟨hs, rfl, rfl⟩⟩
+  · simp only [hs, if_false] at h
+    have hz : st.b2u.size = 0 := by omega
+    cases hf : fs p with
+    | none => simp only [hf] at h; cases h; exact ⟨rfl, Or.inr (Or.inl ⟨hz, rfl, rfl, rfl⟩)⟩
+    | some c =>
+      simp only [hf] at h
+      cases hp : parseTable c with
+      | error x => simp [hp, bind, Except.bind] at h
+      | ok rows =>
+        simp only [hp, bind, Except.bind, pure, Except.pure] at h
+        cases h
+        exact ⟨rfl, Or.inr (Or.inr ⟨hz, rfl, c, rows, rfl, hp, rfl⟩)⟩
+
+theorem initU2B_cases (fs : FS) (p : String) (st st' : Loader) (e : Bool) (h : initU2B fs p st = .ok (st', e)) :
+    st'.b2u = st.b2u ∧
+    ((0 < st.u2b.size ∧ st' = st ∧ e = false) ∨
+     (st.u2b.size = 0 ∧ fs p = none ∧ st' = st ∧ e = true) ∨
+     (st.u2b.size = 0 ∧ e = false ∧ ∃ c rows, fs p = some c ∧ parseTable c = .ok rows ∧ st'.u2b = u2bMapFrom st.u2b rows)) := by
+  unfold initU2B at h
+  by_cases hs : st.u2b.size > 0
+  · simp only [hs, if_true] at h
+    cases h; exact ⟨rfl, Or.inl ⟨hs, rfl, rfl⟩⟩
+  · simp only [hs, if_false] at h
+    have hz : st.u2b.size = 0 := by omega
+    cases hf : fs p with
+    | none => simp only [hf] at h; cases h; exact ⟨rfl, Or.inr (Or.inl ⟨hz, rfl, rfl, rfl⟩)⟩
+    | some c =>
+      simp only [hf] at h
+      cases hp : parseTable c with
+      | error x => simp [hp, bind, Except.bind] at h
+      | ok rows =>
+        simp only [hp, bind, Except.bind, pure, Except.pure] at h
+        cases h
+        exact ⟨rfl, Or.inr (Or.inr ⟨hz, rfl, c, rows, rfl, hp, rfl⟩)⟩
+
 end PttVerif.C17
